@@ -71,7 +71,10 @@ func saveLocals(verif string, m map[string][]localEntry) {
 	os.WriteFile(localsFile(verif), append(b, '\n'), 0o644)
 }
 
-// renameMap: recorded name -> current name, for recorded names that vanished.
+// renameMap: recorded name -> current name, for recorded names that vanished.  The two
+// declaration lists are aligned (longest common subsequence over name+type, so that added and
+// removed locals do not shift the positions); a vanished name is mapped to an appeared name of
+// the same type that sits in the same gap of the alignment, in order.
 func renameMap(base, cur []localEntry) map[string]string {
 	if len(base) == 0 || len(cur) == 0 {
 		return nil
@@ -83,58 +86,94 @@ func renameMap(base, cur []localEntry) map[string]string {
 	for _, e := range cur {
 		inCur[e.Name] = true
 	}
-	var vanished, appeared []string
+	nv := 0
 	for n := range inBase {
 		if !inCur[n] {
-			vanished = append(vanished, n)
+			nv++
 		}
 	}
-	for n := range inCur {
-		if !inBase[n] {
-			appeared = append(appeared, n)
-		}
-	}
-	if len(vanished) == 0 || len(vanished) != len(appeared) {
+	if nv == 0 {
 		return nil
 	}
-	m := map[string]string{}
-	if len(base) == len(cur) {
-		for i := range base {
-			b, c := base[i], cur[i]
-			if !inCur[b.Name] {
-				if inBase[c.Name] || b.Type != c.Type {
-					return nil
-				}
-				if prev, ok := m[b.Name]; ok && prev != c.Name {
-					return nil
-				}
-				m[b.Name] = c.Name
-			} else if b.Name != c.Name {
-				return nil // declarations were also moved: positions are not comparable
+	// LCS over identical (name, type) entries
+	n, m := len(base), len(cur)
+	if n*m > 4000000 {
+		return nil
+	}
+	l := make([][]int, n+1)
+	for i := range l {
+		l[i] = make([]int, m+1)
+	}
+	for i := n - 1; i >= 0; i-- {
+		for k := m - 1; k >= 0; k-- {
+			if base[i] == cur[k] {
+				l[i][k] = l[i+1][k+1] + 1
+			} else if l[i+1][k] >= l[i][k+1] {
+				l[i][k] = l[i+1][k]
+			} else {
+				l[i][k] = l[i][k+1]
 			}
 		}
-		return m
 	}
-	if len(vanished) == 1 {
-		// one rename next to added or removed locals: accept when the type identifies it
-		var bt, ct string
-		for _, e := range base {
-			if e.Name == vanished[0] {
-				bt = e.Type
+	out := map[string]string{}
+	bad := map[string]bool{}
+	flush := func(bs, cs []localEntry) {
+		// within one gap: vanished entries of base against appeared entries of cur, matched in
+		// order per type
+		used := make([]bool, len(cs))
+		for _, b := range bs {
+			if inCur[b.Name] {
+				continue
+			}
+			for k, c := range cs {
+				if used[k] || inBase[c.Name] || c.Type != b.Type {
+					continue
+				}
+				used[k] = true
+				if prev, ok := out[b.Name]; ok && prev != c.Name {
+					bad[b.Name] = true
+				}
+				out[b.Name] = c.Name
 				break
 			}
 		}
-		for _, e := range cur {
-			if e.Name == appeared[0] {
-				ct = e.Type
-				break
-			}
-		}
-		if bt == ct {
-			return map[string]string{vanished[0]: appeared[0]}
+	}
+	i, k := 0, 0
+	var gb, gc []localEntry
+	for i < n && k < m {
+		switch {
+		case base[i] == cur[k]:
+			flush(gb, gc)
+			gb, gc = nil, nil
+			i++
+			k++
+		case l[i+1][k] >= l[i][k+1]:
+			gb = append(gb, base[i])
+			i++
+		default:
+			gc = append(gc, cur[k])
+			k++
 		}
 	}
-	return nil
+	gb = append(gb, base[i:]...)
+	gc = append(gc, cur[k:]...)
+	flush(gb, gc)
+	for b := range bad {
+		delete(out, b)
+	}
+	// a name that occurs several times (shadowing) must have been renamed everywhere alike;
+	// every vanished name must have found a partner, otherwise nothing is rebound
+	for nme := range inBase {
+		if !inCur[nme] {
+			if _, ok := out[nme]; !ok {
+				return nil
+			}
+		}
+	}
+	if len(out) == 0 {
+		return nil
+	}
+	return out
 }
 
 func rangeKeysFile(verif string) string { return filepath.Join(verif, "claims", "rangekeys.json") }
